@@ -21,7 +21,7 @@ from harness.core import Check
 from harness.par import pmap
 
 KINDS = {"plain", "blank", "ind", "q", "b", "t3", "t4", "t5", "w3", "w4", "t3x", "s3", "sw3"}
-CONC = {"plain": 'x = "str"... # it\'s', "blank": "", "ind": "    indented", "q": "> not a quote", "b": "- not an item", "t3": "```",
+CONC = {"plain": 'wait... x = "str" # it\'s', "blank": "", "ind": "    indented", "q": "> not a quote", "b": "- not an item", "t3": "```",
         "t4": "````", "t5": "`````", "w3": "~~~", "w4": "~~~~", "t3x": "```py", "s3": "  ```", "sw3": " ~~~"}
 BACK = {v: k for k, v in CONC.items()}
 PATHS = {"top": ("", ""), "bullet": ("- ", "  "), "quote": ("> ", "> "), "bullet>quote": ("- > ", "  > "), "quote>bullet": ("> - ", ">   "),
@@ -31,7 +31,8 @@ TRIM = False         # Code.tla constant TrimTrailingBlank: the code drops trail
 TAG_RE = re.compile(r"\{%.*?%\}|\{#.*?#\}|\{\{.*?\}\}|<!--.*?-->", re.S)
 
 
-def conc_block(blk, path):
+def conc_block(blk, path, findent=0):
+    """findent: the whole fenced block (fences and content) is written 0-3 spaces to the right, which CommonMark removes again"""
     first, cont = PATHS[path]
     info = {"none": "", "lang": "python", "lang+extra": "python {.numberLines}"}[blk["info"]]
     lines = []
@@ -41,7 +42,8 @@ def conc_block(blk, path):
         lines = body
     else:
         f = blk["fc"] * blk["fl"]
-        lines = [f + info] + [CONC[k] for k in blk["lines"]] + [f]
+        pad = " " * findent
+        lines = [pad + f + info] + [(pad + CONC[k]) if CONC[k] else "" for k in blk["lines"]] + [pad + f]
     out = []
     for j, l in enumerate(lines):
         p = first if j == 0 else cont
@@ -120,8 +122,8 @@ OPTS = [dict(width=88, semantic=False, cleanups=False), dict(width=20, semantic=
 
 def _observe_block(job):
     from flowmark import reformat_text
-    idx, blk, path, oi = job
-    x = conc_block(blk, path)
+    idx, blk, path, oi = job[:4]
+    x = conc_block(blk, path, job[4] if len(job) > 4 else 0)
     try:
         out = reformat_text(x, **OPTS[oi])
     except BaseException as e:  # noqa: BLE001
@@ -205,9 +207,14 @@ def run(tier: str) -> int:
     # indented code blocks are only placed at the top level (after an intro paragraph)
     beh = [b for b in beh if b[1]["fl"] > 0 or b[2] == "top"]
     jobs = [(i, b[1], b[2], i % 2) for i, b in enumerate(beh)]
+    # fenced blocks written 3 (and 1) spaces to the right: the parser removes that indent from the content, so a fence look-alike
+    # that was harmless at 4+ columns becomes a closing-fence candidate
+    lookalike = ("t3", "t4", "t5", "w3", "w4", "s3", "sw3", "t3x")
+    jobs += [(i, b[1], b[2], (i + fi) % 2, fi) for i, b in enumerate(beh) if b[1]["fl"] > 0 and b[2] in ("top", "quote")
+             for fi in ((3, 1) if any(x in lookalike for x in b[1]["lines"]) else (3,) if i % 3 == 0 else ())]
     traces, metas = [], {}
     tid = 0
-    for (i, blk, path, oi), o in zip(jobs, pmap(_observe_block, jobs, chunksize=100)):
+    for (i, blk, path, oi, *_fi), o in zip(jobs, pmap(_observe_block, jobs, chunksize=100)):
         chk.evaluations += 1
         if "exc" in o:
             chk.violation("NoException", dict(src=o.get("src"), opts=OPTS[oi], exc=o["exc"]))
